@@ -20,7 +20,7 @@ INCLUDE = os.path.join(REPO, "include")
 BUILD_ROOT = os.path.join(VERIF, "build")
 EVIDENCE_DIR = os.environ.get("VERIF_EVIDENCE_DIR", os.path.join(VERIF, "evidence"))
 REPLAY_DIR = os.environ.get("VERIF_REPLAY_DIR", os.path.join(VERIF, "replays"))
-KNOWN_FINDINGS = os.path.join(VERIF, "known_findings.txt")
+KNOWN_FINDINGS = os.environ.get("VERIF_KNOWN_FINDINGS", os.path.join(VERIF, "known_findings.txt"))
 NCPU = os.cpu_count() or 4
 
 
@@ -316,7 +316,7 @@ def finish(outcome):
         if hit:
             if sig not in printed_known:
                 printed_known.add(sig)
-                print("KNOWN-FINDING: property=%s %s" % (outcome.prop, hit[0][2]))
+                print("KNOWN-FINDING: %s" % hit[0][2])   # the entry starts with property=<id>
             continue
         n = seen_sigs.get(sig, 0)
         seen_sigs[sig] = n + 1
